@@ -6,6 +6,7 @@ import SqfModel.Api
 import SqfModel.Control
 import SqfModel.Pbo
 import SqfModel.Vfs
+import SqfModel.Preproc
 import Driver.Proto
 import Std.Data.HashMap
 /-!
@@ -430,6 +431,19 @@ def verbVfs (f : List (List Nat)) : List Nat :=
   | [] => []
   | o :: rest => rest.foldl (fun acc x => acc ++ str " ; " ++ x) o
 
+/-! ### pp -/
+
+def verbPp (f : List (List Nat)) : List Nat :=
+  let text := (f[0]?).getD []
+  let files : List (List Nat × List Nat) := match f[1]? with
+    | some fs => if fs.isEmpty then [] else (splitOn1 fs).map (fun e =>
+        let kv := splitOn2 e
+        ([47] ++ kv.headD [], (kv[1]?).getD []))
+    | none => []
+  match Sqf.Pp.run { files := files, root := str "/$R" } Sqf.Pp.builtins text with
+  | .ok out => str "ok " ++ hexOf out
+  | .error c => str "fail " ++ natStr c
+
 def handle (e : Env) (verb : String) (f : List (List Nat)) : List Nat :=
   if verb == "asm" then verbAsm e f
   else if verb == "lex" then verbLex f
@@ -443,6 +457,7 @@ def handle (e : Env) (verb : String) (f : List (List Nat)) : List Nat :=
   else if verb == "ctl3" then verbCtl3 e f
   else if verb == "pbo" then verbPbo f
   else if verb == "vfs" then verbVfs f
+  else if verb == "pp" then verbPp f
   else str "bad-verb"
 
 partial def loop (e : Env) (h : IO.FS.Stream) (out : IO.FS.Stream) : IO Unit := do
